@@ -39,6 +39,6 @@ def replay(path):
     f = d.get('failing_input')
     print(json.dumps(f or d['broken'], indent=1)[:3000])
     if f:
-        cfg = {k: f[k] for k in ('noise', 'd', 'm', 'batch', 'steps', 'dt', 'seed')}
+        cfg = {k: f[k] for k in ('noise', 'd', 'm', 'batch', 'steps', 'dt', 'seed', 'shape', 'precision', 't_start') if k in f}
         print('defect now:', osde.reversibility_defect(**cfg))
     return 1
